@@ -45,14 +45,17 @@ def replay(pid, path):
 
 # --------------------------------------------------------------------------- C13
 def c13_jobs(tier, seed):
-    ks = [3, 4] if tier == "quick" else [4, 5, 6]
+    ks = [3, 4] if tier == "quick" else [4, 5]  # five operation kinds: k=6 (15625 sequences x their splits) did not finish in an hour
     jobs = []
     for k in ks:
         for short in (0, 1):
-            if short == 1 and k > (3 if tier == "quick" else 5):
+            if short == 1 and k > (3 if tier == "quick" else 4):
                 continue
             jobs.append({"pkg_short": "flamego", "body": "VH_C13_kstep", "params": {"k": k, "short": short},
                          "max_paths": 400000})
+    # an underlying writer that is neither an http.Flusher nor an io.ReaderFrom
+    jobs.append({"pkg_short": "flamego", "body": "VH_C13_kstep", "params": {"k": 3 if tier == "quick" else 4, "short": 0, "noflush": 1},
+                 "max_paths": 400000})
     jobs.append({"pkg_short": "flamego", "body": "VH_C13_step", "params": {}})
     return jobs
 
@@ -66,7 +69,7 @@ SPECS["C13"] = Spec(
         "sync.Once.Do is the intrinsic `if !done {f(); done=true}`, sync/atomic Load/Store are plain accesses",
         "one-step lemma covers histories of any length only modulo the stated invariant Inv (status!=0 <=> once done <=> one header sent; size==forwarded bytes; HEAD => 0 bytes)",
     ],
-    bounds=lambda tier: {"k_step_sequence_length": [3, 4] if tier == "quick" else [4, 5, 6], "write_len_max": 2,
+    bounds=lambda tier: {"k_step_sequence_length": [3, 4] if tier == "quick" else [4, 5], "write_len_max": 2,
                          "method": "any 0..4 bytes", "status": "[100,999] symbolic", "hooks_in_step_lemma": "0..3",
                          "unwinding": "3e6 SSA instructions per path, call depth 400; exceeding either is reported inconclusive"},
     rule="k-step: every sequence of k operations drawn from {WriteHeader(code), Write(0..2 bytes), Flush, Before(hook)} with "
@@ -393,6 +396,8 @@ C09_PROGS = [
     (["RS * /w", "H 0 X-K=v"], "?", 2),
     (["RS get,post /lc", "R PUT /lc", "H 0 X-K=v"], "?", 3),
     (["RS Get /m/{x}", "RS POST,get /m/s", "H 1 X-K=v"], "?", 4),
+    # an optional route whose parent subtree was created by an earlier route: the short form is constrained too
+    (["R GET /o/n", "R GET /o/?{p}", "H 1 X-K=v"], "GET", 4), (["R GET /o/n/m", "R GET /o/?p", "H 1 X-K=v", "R GET /{x}"], "GET", 4),
     # a constrained route and an unconstrained one with the same literal at the same place (optional forms)
     (["R GET /?u", "H 0 X-K=v", "R GET /u"], "GET", 3), (["R GET /?ap", "H 0 X-K=v", "R GET /ap/?v"], "GET", 5),
     (["R GET /u", "H 0 X-K=v", "R GET /?u"], "GET", 3),
@@ -475,6 +480,9 @@ def c10_jobs(tier, seed):
     jobs = []
     for prog, method, n in C10_PROGS:
         jobs.append(router_job(prog, n + (0 if tier == "quick" else 2), method=method, hv=1, diff=1, twice=1, tag="c10"))
+    # the client's spelling of the path (URL.RawPath) must not matter to either side
+    for prog in (["R GET /u", "R GET /{n}"], ["R GET /q/r", "R GET /q/{x}", "R GET /{m: **}"], ["R GET /a", "H 0 X-K=v", "H 0 ", "R GET /{x}"]):
+        jobs.append(router_job(prog, 3 if tier == "quick" else 4, method="GET", hv=1, diff=1, twice=1, raw=1, tag="c10-rawpath"))
     rng = random.Random(seed * 131 + 3)
     menu = [("a", "s"), ("b", "s"), ("q", "s"), ("a", "s"), ("{x%d}", "p"), ("{m%d: **}", "m"), ("", "s")]
     drawn = 0
@@ -610,6 +618,7 @@ def c04_jobs(tier, seed):
     jobs.append({"pkg_short": "inject", "body": "VH_C04_apply", "params": {"scopes": 2, "impls": "7"}, "max_paths": 400000})
     jobs.append({"pkg_short": "flamego", "body": "VH_C04_request", "params": {}, "max_paths": 400000})
     jobs.append({"pkg_short": "inject", "body": "VH_C04_exact", "params": {}, "max_paths": 400000})
+    jobs.append({"pkg_short": "flamego", "body": "VH_C04_results", "params": {}, "max_paths": 400000})
     return jobs
 
 
@@ -676,6 +685,8 @@ def c11_jobs(tier, seed):
     jobs = [{"pkg_short": "flamego", "body": "VH_C11_program", "params": {"mask": m, "lens": l}, "max_paths": 3000000} for m, l in masks]
     jobs.append({"pkg_short": "flamego", "body": "VH_C11_program", "max_paths": 3000000,
                  "params": {"mask": "010000100111" if tier == "quick" else "011001100111", "lens": 0}})
+    jobs.append({"pkg_short": "flamego", "body": "VH_C11_program", "max_paths": 3000000,
+                 "params": {"mask": "0011000000001" if tier == "quick" else "1011010000001", "lens": 0}})
     # group prefixes that share characters with each other and with the route paths, an empty prefix, a bind in a prefix
     for g1, g2 in (("/gh", "/h"), ("/p", "/pp"), ("/g", ""), ("/{g}", "/hg")):
         jobs.append({"pkg_short": "flamego", "body": "VH_C11_program", "max_paths": 3000000,
@@ -692,7 +703,7 @@ SPECS["C11"] = Spec(
         "same chosen route / order / parameters for arbitrary requests then follows from C01-C03, decided on flat registrations (composition is an argument, not a query)",
         "a group function that panics is outside the claim",
     ],
-    bounds=lambda tier: {"nesting": 3, "statements": "12 template statements; per job a subset (mask) is symbolic, the others off", "handler_list_len": "0..2 (jobs with lens=1) else 1", "spare_capacity": "0 or 2 (symbolic)"},
+    bounds=lambda tier: {"nesting": 3, "statements": "13 template statements; per job a subset (mask) is symbolic, the others off", "handler_list_len": "0..2 (jobs with lens=1) else 1", "spare_capacity": "0 or 2 (symbolic)"},
     rule="every combination of statement guards, list lengths, capacity and AutoHead toggles of the template",
 )
 
@@ -735,6 +746,9 @@ C08_CURATED = [
     # longer routes: two match-alls before the end behind / around other dynamic segments
     ["/{N0}/{N1: **}/x/{N2: **}/y"], ["/{N0: /x+/}/{N1: **}/{N2: **}/y"], ["/{N1: **}/x/{N0}/{N2: **}/y"], ["/x/{N0}/y/{N1: **}/{N2: **}/{N3}"],
     ["/{N0}/{N1}/{N2: **}/{N3: **}"], ["/{N0}/{N1: **}/x/{N2: **}"], ["/{N0}/x/{N1}/y/{N0}"], ["/{N0}/{N1: **}/x/y/{N1}"],
+    # a rejected registration must leave what was registered before untouched (three siblings, then a route refused half-way)
+    ["/a/x", "/b/x", "/{N0}/x", "/c/{N1}/{N1}"], ["/a/x", "/{N0}/x", "/b/x", "/c/{N1: /x+/}/{N1}", "/d/x"],
+    ["/N0/x", "/N1/y", "/{N2: **}/z", "/N3/?w/z"], ["/a", "/b", "/{N0}", "/c/{N1}/{N1}", "/{N2}/d"],
     # the short form of a root-level optional route is "/"
     ["/?{N0: /x+/}", "/"], ["/", "/?"], ["/", "/?N0"], ["/?{N0: **}", "/", "/N1"], ["/{N1: **}/N1", "/?{N2: /x+/}", "/"],
 ]
